@@ -120,6 +120,21 @@ def gen(tier, seed, shard, nshards):
             d = _random_interventions(rng, p)
             forms = [("dict" if d[x] else ["{}", "None", "omitted"][int(rng.integers(3))]) for x in ("do", "noise", "shift")]
             yield "random", {"W": W, "means": means, "variances": variances, "iv": d, "forms": forms}
+    # (a') parameter values whose Python hashes collide (hash(-1) == hash(-2), hash(1.0) == hash(1) == hash(True), hash(2**61 - 1) == 0):
+    # the same model is first asked about the colliding twin of the judged parameters
+    for k in range(N[tier]["random"] // 8):
+        if k % nshards == shard:
+            rng = util.rng_for("C01", seed, "twin", k)
+            p = int(rng.integers(2, 6))
+            W, means, variances = _random_model(rng, p, 2)
+            vals = [-1.0, -2.0, -1, -2, 1.0, 1, 0.0, 2.0]
+            d = {"do": {}, "noise": {}, "shift": {}}
+            for j in (int(v) for v in rng.permutation(p)[: int(rng.integers(1, p + 1))]):
+                kind = ("do", "noise", "shift")[int(rng.integers(3))]
+                m = vals[int(rng.integers(len(vals)))]
+                d[kind][j] = (m, [1.0, 2.0, 1][int(rng.integers(3))]) if rng.random() < 0.7 else m
+            yield "random", {"W": W, "means": means, "variances": np.maximum(variances, 0.01), "iv": d, "forms": [("dict" if d[x] else "{}") for x in ("do", "noise", "shift")],
+                             "twin_first": True}
     # (c) dtypes / container forms
     dts = ["int64", "int32", "float32", "float64", "int8", "uint8", "int16", "float16"]
     for k in range(N[tier]["dtype"]):
@@ -248,6 +263,17 @@ def judge(family, case, rec):
             if pos_form:
                 return model.sample(*callforms.positional("LGANM.sample", 100, True, **kw_))
             return model.sample(population=True, **kw_)
+        if case.get("twin_first"):
+            tw = {-1: -2, -2: -1, 1: 1.0, 0: -0.0, 2: 2.0}
+
+            def twin(v):
+                if isinstance(v, tuple):
+                    return tuple(twin(x) for x in v)
+                return (float(tw[v]) if isinstance(v, float) else tw[v]) if v in tw and v in (-1, -2) else (tw.get(v, v) if not isinstance(v, float) else v)
+            kw_t = {name: ({j: twin(v) for j, v in dd.items()} if isinstance(dd, dict) else dd) for name, dd in kw.items()}
+            model.sample(population=True, **kw_t)
+            model.sample(3, **kw_t)
+            rec.count("history:hash-colliding-twin-parameters-first")
         dist = None if sweep_first else ask(**kw)
     except Exception as e:
         key = "C01:exception-" + type(e).__name__
